@@ -283,13 +283,13 @@ class FacebookPhoto(FacebookParsedItem):
         if self.parent_id:
             return urljoin(
                 BASE_FACEBOOK_URL,
-                "/%s/a.%s/%s" % (self.parent_id, self.album_id, self.id),
+                "/%s/photos/a.%s/%s" % (self.parent_id, self.album_id, self.id),
             )
 
         if self.parent_handle:
             return urljoin(
                 BASE_FACEBOOK_URL,
-                "/%s/a.%s/%s" % (self.parent_handle, self.album_id, self.id),
+                "/%s/photos/a.%s/%s" % (self.parent_handle, self.album_id, self.id),
             )
 
         return urljoin(BASE_FACEBOOK_URL, "/photo.php?fbid=%s" % self.id)
